@@ -155,7 +155,7 @@ fn item<C: Suite>(ctx: &mut Ctx, proto: &str, n: u16, t: u16, kind: &str) {
             let mut sec1 = BTreeMap::new();
             let mut r1 = BTreeMap::new();
             for id in &ids {
-                let r = if refreshing { refresh::refresh_dkg_part1::<C, _>(*id, n, t, rngs.get_mut(id).unwrap()) } else { dkg::part1::<C, _>(*id, n, t, rngs.get_mut(id).unwrap()) };
+                let r = if refreshing { C::api_refresh_dkg_part1(*id, n, t, rngs.get_mut(id).unwrap()) } else { C::api_dkg_part1(*id, n, t, rngs.get_mut(id).unwrap()) };
                 let Ok((s, pk)) = r else { return ctx.viol("honest-run-failed", proto, json!({"step": "part1"})) };
                 sec1.insert(*id, s);
                 r1.insert(*id, pk);
@@ -164,7 +164,7 @@ fn item<C: Suite>(ctx: &mut Ctx, proto: &str, n: u16, t: u16, kind: &str) {
             for id in &ids {
                 let mut ib = r1.clone();
                 ib.remove(id);
-                let r = if refreshing { refresh::refresh_dkg_part2::<C>(sec1[id].clone(), &ib) } else { dkg::part2::<C>(sec1[id].clone(), &ib) };
+                let r = if refreshing { C::api_refresh_dkg_part2(sec1[id].clone(), &ib) } else { C::api_dkg_part2(sec1[id].clone(), &ib) };
                 let Ok((_, out)) = r else { return ctx.viol("honest-run-failed", proto, json!({"step": "part2"})) };
                 r2.insert(*id, out);
             }
@@ -176,13 +176,13 @@ fn item<C: Suite>(ctx: &mut Ctx, proto: &str, n: u16, t: u16, kind: &str) {
                     Some(g) => (Some(p1::<C, _>(g.kps[me].clone(), st[0])?), Some(p1::<C, _>(g.pkp.clone(), st[0])?)),
                     None => (None, None),
                 };
-                let (s1, pk1) = if refreshing { refresh::refresh_dkg_part1::<C, _>(*me, n, t, &mut rng) } else { dkg::part1::<C, _>(*me, n, t, &mut rng) }.map_err(e("part1"))?;
+                let (s1, pk1) = if refreshing { C::api_refresh_dkg_part1(*me, n, t, &mut rng) } else { C::api_dkg_part1(*me, n, t, &mut rng) }.map_err(e("part1"))?;
                 push::<C, _>(&mut tr, "round1-package", &pk1);
                 let s1 = p1::<C, _>(s1, st[0])?;
                 let mut ib: IdMap<C, dkg::round1::Package<C>> = r1.clone();
                 ib.remove(me);
                 let ib = pm::<C, _>(&ib, st[1])?;
-                let (s2, out2) = if refreshing { refresh::refresh_dkg_part2::<C>(s1, &ib) } else { dkg::part2::<C>(s1, &ib) }.map_err(e("part2"))?;
+                let (s2, out2) = if refreshing { C::api_refresh_dkg_part2(s1, &ib) } else { C::api_dkg_part2(s1, &ib) }.map_err(e("part2"))?;
                 for (to, pk) in &out2 {
                     push::<C, _>(&mut tr, &format!("round2-package#{}", id_hex::<C>(to)), pk);
                 }
@@ -191,22 +191,22 @@ fn item<C: Suite>(ctx: &mut Ctx, proto: &str, n: u16, t: u16, kind: &str) {
                 let in2: IdMap<C, dkg::round2::Package<C>> = ids.iter().filter(|j| *j != me).map(|j| (*j, r2[j][me].clone())).collect();
                 let in2 = pm::<C, _>(&in2, st[2])?;
                 let (kp, pkp) = if refreshing {
-                    refresh::refresh_dkg_shares::<C>(&s2, &ib, &in2, opkp.clone().unwrap(), okp.clone().unwrap())
+                    C::api_refresh_dkg_shares(&s2, &ib, &in2, opkp.clone().unwrap(), okp.clone().unwrap())
                 } else {
-                    dkg::part3::<C>(&s2, &ib, &in2)
+                    C::api_dkg_part3(&s2, &ib, &in2)
                 }
                 .map_err(e("part3"))?;
                 push::<C, _>(&mut tr, "key-package", &kp);
                 push::<C, _>(&mut tr, "public-key-package", &pkp);
                 let kp = p1::<C, _>(kp, st[3])?;
                 let _pkp = p1::<C, _>(pkp, st[3])?;
-                let (nonces, cm) = frost_core::round1::commit::<C, _>(kp.signing_share(), &mut rng);
+                let (nonces, cm) = C::api_commit(kp.signing_share(), &mut rng);
                 push::<C, _>(&mut tr, "signing-commitments", &cm);
                 let nonces = p1::<C, _>(nonces, st[4])?;
                 if let Some(cs) = comms {
                     if cs.contains_key(me) {
                         let pkg = p1::<C, _>(SigningPackage::new(cs.clone(), &msg), st[4])?;
-                        let sh = frost_core::round2::sign(&pkg, &nonces, &kp).map_err(e("sign"))?;
+                        let sh = C::api_sign(&pkg, &nonces, &kp).map_err(e("sign"))?;
                         push::<C, _>(&mut tr, "signature-share", &sh);
                     }
                 }
@@ -239,7 +239,7 @@ fn item<C: Suite>(ctx: &mut Ctx, proto: &str, n: u16, t: u16, kind: &str) {
             let mut drng = prng("dealer", &ids[0]);
             let Ok(g0) = dealer_group::<C>(n, t, if kind == "default" { None } else { Some(&ids0[..]) }, None, &mut drng) else { return };
             let (rshares, newp): (IdMap<C, SecretShare<C>>, PublicKeyPackage<C>) = if refreshing {
-                match refresh::compute_refreshing_shares::<C, _>(g0.pkp.clone(), &ids, &mut drng) {
+                match C::api_compute_refreshing_shares(g0.pkp.clone(), &ids, &mut drng) {
                     Ok((v, np)) => (ids.iter().copied().zip(v).collect(), np),
                     Err(_) => return,
                 }
@@ -252,19 +252,19 @@ fn item<C: Suite>(ctx: &mut Ctx, proto: &str, n: u16, t: u16, kind: &str) {
                 let share = p1::<C, _>(rshares[me].clone(), st[0])?;
                 let kp = if refreshing {
                     let cur = p1::<C, _>(g0.kps[me].clone(), st[0])?;
-                    refresh::refresh_share::<C>(share, &cur).map_err(e("refresh_share"))?
+                    C::api_refresh_share(share, &cur).map_err(e("refresh_share"))?
                 } else {
                     KeyPackage::<C>::try_from(share).map_err(e("try_from"))?
                 };
                 push::<C, _>(&mut tr, "key-package", &kp);
                 let kp = p1::<C, _>(kp, st[1])?;
-                let (nonces, cm) = frost_core::round1::commit::<C, _>(kp.signing_share(), &mut rng);
+                let (nonces, cm) = C::api_commit(kp.signing_share(), &mut rng);
                 push::<C, _>(&mut tr, "signing-commitments", &cm);
                 let nonces = p1::<C, _>(nonces, st[2])?;
                 if let Some(cs) = comms {
                     if cs.contains_key(me) {
                         let pkg = p1::<C, _>(SigningPackage::new(cs.clone(), &msg), st[2])?;
-                        let sh = frost_core::round2::sign(&pkg, &nonces, &kp).map_err(e("sign"))?;
+                        let sh = C::api_sign(&pkg, &nonces, &kp).map_err(e("sign"))?;
                         push::<C, _>(&mut tr, "signature-share", &sh);
                     }
                 }
@@ -308,7 +308,7 @@ fn item<C: Suite>(ctx: &mut Ctx, proto: &str, n: u16, t: u16, kind: &str) {
                 for h in &helpers {
                     let mut rng = prng("helper", h);
                     let kp = p1::<C, _>(g0.kps[h].clone(), st[0])?;
-                    let deltas = repairable::repair_share_part1::<C, _>(&helpers, &kp, &mut rng, lost).map_err(e("repair_part1"))?;
+                    let deltas = C::api_repair_part1(&helpers, &kp, &mut rng, lost).map_err(e("repair_part1"))?;
                     for (to, dl) in deltas {
                         push::<C, _>(&mut tr, &format!("delta#{}->{}", id_hex::<C>(h), id_hex::<C>(&to)), &dl);
                         inbox.entry(to).or_default().push(p1::<C, _>(dl, st[0])?);
@@ -316,16 +316,16 @@ fn item<C: Suite>(ctx: &mut Ctx, proto: &str, n: u16, t: u16, kind: &str) {
                 }
                 let mut sigmas: Vec<Sigma<C>> = vec![];
                 for h in &helpers {
-                    let s = repairable::repair_share_part2::<C>(&inbox[h]);
+                    let s = C::api_repair_part2(&inbox[h]);
                     push::<C, _>(&mut tr, &format!("sigma#{}", id_hex::<C>(h)), &s);
                     sigmas.push(p1::<C, _>(s, st[1])?);
                 }
                 let pkp = p1::<C, _>(g0.pkp.clone(), st[1])?;
-                let kp = repairable::repair_share_part3::<C>(&sigmas, lost, &pkp).map_err(e("repair_part3"))?;
+                let kp = C::api_repair_part3(&sigmas, lost, &pkp).map_err(e("repair_part3"))?;
                 push::<C, _>(&mut tr, "key-package", &kp);
                 let kp = p1::<C, _>(kp, st[2])?;
                 let mut rng = prng("participant", &lost);
-                let (_nonces, cm) = frost_core::round1::commit::<C, _>(kp.signing_share(), &mut rng);
+                let (_nonces, cm) = C::api_commit(kp.signing_share(), &mut rng);
                 push::<C, _>(&mut tr, "signing-commitments", &cm);
                 Ok(tr)
             };
@@ -350,7 +350,7 @@ fn item<C: Suite>(ctx: &mut Ctx, proto: &str, n: u16, t: u16, kind: &str) {
                 let pkg = p1::<C, _>(SigningPackage::new(comms, &msg), st[1])?;
                 push::<C, _>(&mut tr, "signing-package", &pkg);
                 let shares: IdMap<C, SignatureShare<C>> = pm::<C, _>(&sess.shares, st[2])?;
-                let sig = frost_core::aggregate(&pkg, &shares, &pkp).map_err(e("aggregate"))?;
+                let sig = C::api_aggregate(&pkg, &shares, &pkp).map_err(e("aggregate"))?;
                 push::<C, _>(&mut tr, "signature", &sig);
                 let sig = p1::<C, _>(sig, st[2])?;
                 let vk = p1::<C, _>(*pkp.verifying_key(), st[0])?;
